@@ -35,6 +35,10 @@ type c12Sel struct {
 	// list index when > 1) is answered with completion code FaultCode instead of data
 	FaultAt   int `json:",omitempty"`
 	FaultCode int `json:",omitempty"`
+	// Refuse: the BMC advertises the suite the selection arrives at but answers the Open
+	// Session Request for it with status 0x11 (its advertisement and its session code
+	// disagree); the other suites it would accept
+	Refuse bool `json:",omitempty"`
 }
 
 type c12Ans struct {
@@ -142,6 +146,9 @@ func c12Exec(run *ev.Run, c ev.Case) {
 					c12Select(run, c12Sel{Prefs: lists[i], Advertised: adv, Shuffle: int(b.Seed) + i + adv})
 					if len(lists[i]) != 1 && (i+adv)%3 == 0 {
 						c12Select(run, c12Sel{Prefs: lists[i], Advertised: adv, Shuffle: int(b.Seed) + i + adv, FaultAt: 1 + (i+adv)%4, FaultCode: []int{0xff, 0xc1, 0xcc, 0xd4, 0x80}[(i+adv)%5]})
+					}
+					if (i+adv)%4 == 1 {
+						c12Select(run, c12Sel{Prefs: lists[i], Advertised: adv, Shuffle: int(b.Seed) + i + adv, Refuse: true})
 					}
 					if len(lists[i]) == 0 {
 						c12Select(run, c12Sel{Prefs: lists[i], Advertised: adv, Shuffle: int(b.Seed) + i + adv, Empty: 1})
@@ -379,6 +386,15 @@ func c12Select(run *ev.Run, s c12Sel) {
 		server.Requests = nil
 	}
 	armed = true
+	if s.Refuse && want >= 0 {
+		var accepted []refbmc.Suite
+		for i, su := range c12U {
+			if i != want {
+				accepted = append(accepted, su)
+			}
+		}
+		e.BMC.Cfg.Suites = accepted
+	}
 	ctx, cancel := e.LimitCtx(160)
 	defer cancel()
 	var sess *bmc.V2Session
@@ -431,6 +447,14 @@ func c12Select(run *ev.Run, s c12Sel) {
 	}
 	if *proposal != c12U[want] {
 		run.Violation("C12:wrong-proposal", fmt.Sprintf("%s: proposed %v, want %v", desc, *proposal, c12U[want]), cs, nil)
+		return
+	}
+	if s.Refuse {
+		// the one suite that may be proposed was refused: an error, and no second proposal
+		run.Nontrivial(fmt.Sprintf("sel-refused %v %d", s.Prefs, s.Advertised))
+		if err == nil || sess != nil || opens != 1 {
+			run.Violation("C12:another-suite-after-refusal", fmt.Sprintf("%s: the BMC refused the Open Session Request for %v with status 0x11; expected an error after that one proposal, got err=%v, session=%v, %d Open Session Requests", desc, c12U[want], err, sess != nil, opens), cs, nil)
+		}
 		return
 	}
 	su := c12U[want]
